@@ -5,9 +5,10 @@ import ast
 from collections import namedtuple
 
 from .. import paths
-from ..core import FUNC, call_attr, calls_in, dotted, norm, text, walk_local, is_const
+from ..core import FUNC, call_attr, calls_in, dotted, norm, text, walk_local, is_const, kwarg
 
 EXPLANATION = [
+    'C04.pools: every IsoLink is created with self.iso_packet_queue, and get_data_packet_queue returns the queue stored on the link itself (connection.acl_packet_queue / iso_link.packet_queue): enqueue and completion use the same pool.',
     "C04.shared-pool: Host.reset decides 'no dedicated LE buffers' on the values the controller returned (they are not rewritten before the test) and in that case makes the LE queue the very same object as the Classic queue: one pool, one counter.",
     'C04.dead-default-check: no value obtained by indexing a defaultdict attribute is afterwards tested for absence (`is None` / falsy): such a test is dead and the lookup has created the entry (drain() would wait on a fresh event nobody sets).',
     'C04.fifo: every deque of the anchored modules that is filled with append / extend is emptied with popleft or by iteration (never pop()), and conversely: queued entries come out in the order they went in.',
@@ -617,7 +618,33 @@ def shared_pool(ctx):
                 f'`{nm}` is rewritten before the "no dedicated LE buffers" test ({[norm(w)[:60] for w in writes if not (isinstance(w, ast.Assign) and (is_const(w.value) or (dotted(w.value) or "").startswith("response")))][:2]}): the shared pool then gets a second, independent queue and the host puts up to twice the advertised number of packets in flight', p.loc(br))
 
 
+def pools_rule(ctx):
+    """Each kind of link draws on its own buffer pool: an ISO link is created with the ISO queue, and the queue used for
+    completions and drain of an ACL handle is the one stored on that connection (the one its packets were enqueued on)."""
+    R, p = ctx.r, ctx.p
+    rule = 'C04.pools'
+    ci = p.cls('bumble.host.Host')
+    if ci is None:
+        R.bad(rule, 'bumble.host.Host', 'anchor missing')
+        return
+    n = 0
+    for name, fn in sorted(ci.methods.items()):
+        for c in [x for x in calls_in(fn) if call_attr(x) == 'IsoLink']:
+            n += 1
+            q = kwarg(c, 'packet_queue', 1)
+            R.check(q is not None and norm(q) == 'self.iso_packet_queue', rule, f'bumble.host.Host.{name} | IsoLink', 'uses the ISO queue', f'an ISO link is given `{norm(q) if q is not None else None}` as its queue: its packets are credited against another pool (more ISO packets in flight than ISO buffers, ACL packets waiting although ACL buffers are free)', p.loc(c))
+    g = ci.methods.get('get_data_packet_queue')
+    if g is None:
+        R.bad(rule, 'bumble.host.Host.get_data_packet_queue', 'anchor missing')
+    else:
+        rets = [norm(r.value) for r in walk_local(g) if isinstance(r, ast.Return) and r.value is not None and not (isinstance(r.value, ast.Constant) and r.value.value is None)]
+        ok = bool(rets) and all(r.endswith('.acl_packet_queue') and not r.startswith('self.') or r.endswith('.packet_queue') for r in rets)
+        R.check(ok, rule, 'bumble.host.Host.get_data_packet_queue', f'returns the queue stored on the link ({rets})', f'get_data_packet_queue returns {rets}: completions for a handle are routed to a queue other than the one its packets were enqueued on, so they are dropped as "unknown connection" and the link stalls', p.loc(g))
+    R.check(n >= 1, rule, 'bumble.host.Host | IsoLink constructions', f'{n}', 'no IsoLink construction found')
+
+
 RULES = [
+    ('C04.pools', pools_rule),
     ('C04.shared-pool', shared_pool),
     ('C04.dead-default-check', dead_default_check_rule),
     ('C04.fifo', fifo_rule),
